@@ -1,6 +1,7 @@
 package worlds
 
 import (
+	"bytes"
 	"context"
 	"encoding/json"
 	"errors"
@@ -68,6 +69,7 @@ type c12Scenario struct {
 	huge                                 bool // quota: the input count crosses 65535 -> 65536 during Fund
 	requote                              int  // 0 no, 1 AddQuote, 2 UnmarshalJSON between the two Fund calls
 	veryPatient                          bool // thousands of empty answers: executed once, without fault positions
+	inscribedUTXOs                       bool // two thirds of the supplier's coins are P2PKH outputs carrying an inscription envelope
 	deadCtx                              bool // Fund is handed a context that is already cancelled
 	whale                                int  // 0 no; 1 an output above 2^63 sat; 2 a prior input above 2^63 sat
 	sharedFee                            bool // one *bt.Fee object registered under both fee types (a miner with a single rate)
@@ -286,6 +288,7 @@ func genC12(c *kernel.RunCtx) *c12Scenario {
 		s.resps2 = append(s.resps2, c12Resp{kind: c.Pick(4, 4, 2, 1, 3), n: 1 + c.Choose(3), aux: c.U64n(1 << 16)})
 	}
 	c.End()
+	s.inscribedUTXOs = c.RunIdx%6 == 4
 	if c.RunIdx%1499 == 13 && !s.huge {
 		// quota: thousands of empty answers in a row before the supplier delivers (one execution, no fault positions)
 		s.veryPatient = true
@@ -339,7 +342,10 @@ func (p *c12Supplier) modelDeficit() (uint64, error) {
 		if in.PreviousTxScript == nil {
 			return 0, fmt.Errorf("input %d has no previous script: estimate undefined", i)
 		}
-		if !(len(ps) == 25 && ps[0] == 0x76 && ps[1] == 0xa9 && ps[2] == 0x14 && ps[23] == 0x88 && ps[24] == 0xac) {
+		isP2PKH := len(ps) >= 25 && ps[0] == 0x76 && ps[1] == 0xa9 && ps[2] == 0x14 && ps[23] == 0x88 && ps[24] == 0xac
+		// a P2PKH output carrying an ordinals inscription envelope is spent like a P2PKH output (same unlocking script)
+		isInscribed := isP2PKH && len(ps) > 32 && bytes.Equal(ps[25:31], []byte{0x00, 0x63, 0x03, 0x6f, 0x72, 0x64}) && ps[len(ps)-1] == 0x68
+		if !(isP2PKH && (len(ps) == 25 || isInscribed)) {
 			return 0, fmt.Errorf("input %d spends a non-P2PKH script: estimate undefined", i)
 		}
 		us := scriptBytes(in.UnlockingScript)
@@ -393,6 +399,15 @@ func (p *c12Supplier) mkUTXO(val uint64, kind int) *bt.UTXO {
 		u.LockingScript = nil
 	default:
 		u.LockingScript = scriptPtr(p2pkh(p.s.h20(p.utxoN)))
+		if p.s.inscribedUTXOs && p.utxoN%3 != 1 {
+			// the supplier's coins carry ordinals inscriptions (P2PKH + envelope): spent exactly like P2PKH outputs
+			sc := append(p2pkh(p.s.h20(p.utxoN)), 0x00, 0x63, 0x03, 0x6f, 0x72, 0x64, 0x51)
+			sc = append(sc, pushOf([]byte("text/plain"))...)
+			sc = append(sc, 0x00)
+			sc = append(sc, pushOf(bytes.Repeat([]byte{byte(p.utxoN)}, 1+p.utxoN*37%600))...)
+			sc = append(sc, 0x68)
+			u.LockingScript = scriptPtr(sc)
+		}
 	}
 	return u
 }
